@@ -201,6 +201,38 @@ impl<'a> Gen<'a> {
         self.op(&format!("serde {} {} {}", fmt, r.n, n), &code);
         Some(Reg { n, v: r.v, place: Place::Stack, init: r.init.clone() })
     }
+    fn clone_bomb(&mut self, r: &Reg) {
+        if r.init.iter().any(|b| !b) { return; }
+        let data = self.vs[r.v].data.clone();
+        let cands: Vec<usize> = data.iter().enumerate().filter(|(_, f)| !f.uninit && matches!(f.ty.as_str(), "H" | "O3" | "A16")).map(|(i, _)| i).collect();
+        if cands.is_empty() { return; }
+        let fi = *self.rng.pick(&cands);
+        let f = &data[fi];
+        let code = format!("{{ let id = {a}.{f}().id(); CLONE_BOMB.with(|b| *b.borrow_mut() = Some(id)); let res = std::panic::catch_unwind(std::panic::AssertUnwindSafe(|| {{ let c = {a}.clone(); c }})); CLONE_BOMB.with(|b| *b.borrow_mut() = None); match res {{ Ok(c) => {{ mute(true); drop(c); mute(false); flush(out, \"no-panic\".into()); }} Err(_) => flush(out, \"panic\".into()) }} }}", a = self.acc(r), f = f.name);
+        self.op(&format!("clonebomb {} {}", r.n, fi), &code);
+    }
+    fn de_bad(&mut self, r: &Reg) {
+        if r.init.iter().any(|b| !b) { return; }
+        let n = self.vs[r.v].data.len();
+        let json = self.rng.chance(1, 2);
+        let kinds: Vec<&str> = if json { vec!["trunc", "corrupt", "long"] } else { vec!["trunc"] };
+        let kind = *self.rng.pick(&kinds);
+        if n == 0 && kind != "long" { return; }
+        let k = if n == 0 { 0 } else { self.rng.below(n) };
+        let ty = self.rty(r.v);
+        let classify = "let cls = |m: String| -> &'static str { if m.contains(\"missing field\") { \"missing\" } else if m.contains(\"trailing\") { \"trailing\" } else if m.contains(\"invalid length\") { \"invalid-length\" } else { \"bad\" } };";
+        let code = if json {
+            let mutate = match kind {
+                "trunc" => format!("arr.truncate({});", k),
+                "corrupt" => format!("arr[{}] = serde_json::Value::String(\"x\".into());", k),
+                _ => "arr.push(serde_json::Value::from(0u64));".to_string(),
+            };
+            format!("{{ {cl} let mut val = serde_json::to_value(&{a}).unwrap(); {{ let arr = val.as_array_mut().unwrap(); {m} }} let s = val.to_string(); let res: Result<{ty}, _> = serde_json::from_str(&s); match res {{ Ok(c) => {{ mute(true); drop(c); mute(false); flush(out, \"ok?\".into()); }} Err(e) => flush(out, format!(\"err {{}}\", cls(e.to_string()))) }} }}", cl = classify, a = self.acc(r), m = mutate, ty = ty)
+        } else {
+            format!("{{ {cl} let mut bytes = bincode::serialize(&{a}).unwrap(); bytes.truncate(8 * {k}); let res: Result<{ty}, _> = bincode::deserialize(&bytes); match res {{ Ok(c) => {{ mute(true); drop(c); mute(false); flush(out, \"ok?\".into()); }} Err(e) => flush(out, format!(\"err {{}}\", cls(e.to_string()))) }} }}", cl = classify, a = self.acc(r), k = k, ty = ty)
+        };
+        self.op(&format!("debad {} {} {} {}", if json { "json" } else { "bincode" }, r.n, kind, k), &code);
+    }
     fn end_of_life(&mut self, r: Reg) {
         if self.rng.chance(1, 2) { self.unpack(r) } else { self.drop_rec(r) }
     }
@@ -228,6 +260,8 @@ impl<'a> Gen<'a> {
                     self.end_of_life(c);
                 }
             }
+            if self.rng.chance(1, 2) { self.clone_bomb(&r); }
+            if self.rng.chance(1, 2) { self.de_bad(&r); }
             if self.rng.chance(1, 2) {
                 let fmt = if self.rng.chance(1, 2) { "json" } else { "bincode" };
                 if let Some(d) = self.serde(&r, fmt) { self.all_gets(&d); self.end_of_life(d); }
